@@ -603,6 +603,7 @@ func checkC16(w *World, r *Report) {
 	checkReaderAcceptsWhatWriterWrites(w, r)
 	checkConstructorsAgreeOnTree(w, r)
 	checkCodecSizeClasses(w, r)
+	checkRenderingIgnoresProvenance(w, r)
 }
 
 func (w *World) compareWire(r *Report, wfd, rfd *ast.FuncDecl, wo, ro []wireOp, helper bool, helperPairOK bool) bool {
@@ -1994,4 +1995,61 @@ func checkCodecSizeClasses(w *World, r *Report) {
 		}
 	}
 	r.Counts["size-threshold branches in the codec"] = n
+}
+
+// checkRenderingIgnoresProvenance — R16.14: a template renders the same wherever it came from.  A
+// template rebuilt from compiled data has no loader and no modification time; outside Engine.Load
+// (whose reload test is about the cache, not about rendering) no branch of the code a render can
+// reach is decided by Template.loader or Template.lastModified: what is done only for
+// loader-backed templates is not done for the compiled twin of the same source.
+func checkRenderingIgnoresProvenance(w *World, r *Report) {
+	reach := w.renderReachable()
+	loadParts := w.loadPartsSet()
+	n := 0
+	for _, fn := range w.pkgFuncs() {
+		if !reach[fn] || loadParts[fn] {
+			continue
+		}
+		for _, b := range fn.Blocks {
+			if len(b.Instrs) == 0 {
+				continue
+			}
+			ifi, ok := b.Instrs[len(b.Instrs)-1].(*ssa.If)
+			if !ok {
+				continue
+			}
+			n++
+			var facts []condFact
+			expandCond(ifi.Cond, true, &facts, 0)
+			for _, cf := range facts {
+				field := ""
+				var ops []*ssa.Value
+				if in, ok := cf.v.(ssa.Instruction); ok {
+					ops = in.Operands(nil)
+				}
+				vals := []ssa.Value{cf.v}
+				for _, o := range ops {
+					if *o != nil {
+						vals = append(vals, *o)
+					}
+				}
+				for _, v := range vals {
+					v = unspill(v)
+					if ta, ok := v.(*ssa.TypeAssert); ok {
+						v = unspill(ta.X)
+					}
+					for _, f := range []string{"loader", "lastModified"} {
+						if _, ok := fieldLoad(v, "Template", f); ok {
+							field = f
+						}
+					}
+				}
+				if field != "" {
+					r.bad("R16.14", ssaName(fn), "no render-time branch on Template."+field, w.posOf(ifi.Cond.Pos()), "what a render does here depends on whether the template has a "+field+": a template loaded from compiled data has none, so it renders differently from the original it was compiled from")
+				}
+			}
+		}
+	}
+	r.Counts["branches examined for provenance tests"] = n
+	r.ok("R16.14", "(package)", "rendering does not ask where a template came from", "-", fmt.Sprintf("%d branches in render-reachable code outside Engine.Load examined", n), true)
 }
